@@ -152,7 +152,7 @@ func normalizeNewHelpers(repo string, first []*packages.Package, ref map[string]
 	}
 
 	renamedOnce := map[string]bool{}
-	const maxRounds = 12
+	const maxRounds = 60 // one call per file and round: a pull-request-sized refactoring brings dozens of helper calls
 	for round := 0; round < maxRounds; round++ {
 		rep.Rounds = round + 1
 		// declarations of the new functions in this load
